@@ -8,11 +8,16 @@
 //! silent past the deadline is killed (`H fail hang …`), one that dies (abort, stack overflow) is
 //! reported (`H fail abort …`); the case is then re-sent with the offending entry point masked out, so
 //! a hang costs one deadline and never a stuck check.
+//!
+//! Ties to the Lean models: the two header entry points answer with `I` lines (model `M`,
+//! `Model/Header.lean`); for yacc texts every `ASTWithValidityInfo::new(kind, src)` also answers with an
+//! `Iy k …` line — what `YaccParser::parse` returned (Ok / error kinds with spans, in order) and a
+//! summary of the AST it built — compared with the `My k …` line of `Model/YaccParse.lean`.
 use crate::out::{guarded, Out};
 use crate::rng::Rng;
 use crate::Args;
 use cfgrammar::header::{GrmtoolsSectionParser, Header, HeaderError, HeaderErrorKind, Namespaced, Setting, Value};
-use cfgrammar::yacc::ast::ASTWithValidityInfo;
+use cfgrammar::yacc::ast::{ASTWithValidityInfo, GrammarAST, Symbol};
 use cfgrammar::yacc::{YaccGrammar, YaccKind, YaccOriginalActionKind};
 use cfgrammar::{Span, Spanned};
 use lrlex::{DefaultLexerTypes, LRNonStreamingLexerDef, LexerDef, DEFAULT_LEX_FLAGS};
@@ -89,6 +94,9 @@ fn entries(cat: usize) -> Vec<Entry> {
 struct EntryResult {
     outcome: String,
     iline: Option<String>,
+    /// `ASTWithValidityInfo::new(kind, src)`: the answer of the yacc text parser in the format of the
+    /// driver's `My` line
+    yline: Option<String>,
     fails: Vec<String>,
     stats: Vec<String>,
 }
@@ -140,6 +148,146 @@ fn check_errors<E: Spanned + std::error::Error + Clone + std::panic::RefUnwindSa
         }
     }
     o
+}
+
+// ---------------------------------------------------------------------------------------------
+// the yacc text parser's answer (`Iy` lines; format of `fmtYacc` in lean/GrmVerif/Drive/C12.lean)
+
+fn yname(s: &str) -> String {
+    let v: Vec<String> = s.chars().map(|c| (c as u32).to_string()).collect();
+    format!("n{}", v.join("."))
+}
+
+fn ysp(sp: &Span) -> String {
+    format!("{} {}", sp.start(), sp.end())
+}
+
+fn ysym(s: &Symbol) -> String {
+    match s {
+        Symbol::Token(n, sp) => format!("T {} {}", yname(n), ysp(sp)),
+        Symbol::Rule(n, sp) => format!("R {} {}", yname(n), ysp(sp)),
+    }
+}
+
+fn ylist(items: Vec<String>) -> String {
+    let mut o = format!("{}", items.len());
+    for i in items {
+        o.push(' ');
+        o.push_str(&i);
+    }
+    o
+}
+
+/// entries of a hash map in source order (every entry is created at a different place of the text)
+fn by_pos(mut v: Vec<(usize, String)>) -> Vec<String> {
+    v.sort();
+    v.into_iter().map(|(_, s)| s).collect()
+}
+
+fn yast_fmt(a: &GrammarAST) -> String {
+    let mut o = String::from("S ");
+    match &a.start {
+        None => o.push('-'),
+        Some((n, sp)) => o.push_str(&format!("{} {}", yname(n), ysp(sp))),
+    }
+    o.push_str(" T ");
+    o.push_str(&ylist(
+        a.tokens
+            .iter()
+            .enumerate()
+            .map(|(i, t)| {
+                let sp = a.spans.get(i).map(ysp).unwrap_or_else(|| "? ?".to_string());
+                format!("{} {} {}", yname(t), sp, if a.token_directives.contains(&i) { 1 } else { 0 })
+            })
+            .collect(),
+    ));
+    o.push_str(" R ");
+    o.push_str(&ylist(a.rules.values().map(|r| format!("{} {}", yname(&r.name.0), ysp(&r.name.1))).collect()));
+    o.push_str(" P ");
+    o.push_str(&ylist(
+        a.prods
+            .iter()
+            .enumerate()
+            .map(|(pi, p)| {
+                let ri = a.rules.values().position(|r| r.pidxs.contains(&pi)).unwrap_or(999999);
+                format!(
+                    "{} {} {} {} {}",
+                    ri,
+                    ylist(p.symbols.iter().map(ysym).collect()),
+                    p.precedence.as_ref().map(|n| yname(n)).unwrap_or_else(|| "-".to_string()),
+                    if p.action.is_some() { 1 } else { 0 },
+                    ysp(&p.prod_span)
+                )
+            })
+            .collect(),
+    ));
+    o.push_str(" C ");
+    o.push_str(&ylist(by_pos(
+        a.precs
+            .iter()
+            .map(|(n, (p, sp))| {
+                let k = match p.kind {
+                    cfgrammar::yacc::AssocKind::Left => 0,
+                    cfgrammar::yacc::AssocKind::Right => 1,
+                    cfgrammar::yacc::AssocKind::Nonassoc => 2,
+                };
+                (sp.start(), format!("{} {} {} {}", yname(n), p.level, k, ysp(sp)))
+            })
+            .collect(),
+    )));
+    for (tag, m) in [(" A ", &a.avoid_insert), (" I ", &a.implicit_tokens)] {
+        o.push_str(tag);
+        match m {
+            None => o.push('-'),
+            Some(m) => o.push_str(&ylist(by_pos(m.iter().map(|(n, sp)| (sp.start(), format!("{} {}", yname(n), ysp(sp)))).collect()))),
+        }
+    }
+    o.push_str(" E ");
+    o.push_str(&ylist(by_pos(
+        a.epp.iter().map(|(n, (sp, (v, vsp)))| (sp.start(), format!("{} {} {} {}", yname(n), ysp(sp), yname(v), ysp(vsp)))).collect(),
+    )));
+    for (tag, x) in [(" X ", &a.expect), (" Y ", &a.expectrr)] {
+        o.push_str(tag);
+        match x {
+            None => o.push('-'),
+            Some((n, sp)) => o.push_str(&format!("{} {}", n, ysp(sp))),
+        }
+    }
+    o.push_str(" PP ");
+    o.push_str(&a.parse_param.as_ref().map(|(_, ty)| yname(ty)).unwrap_or_else(|| "-".to_string()));
+    o.push_str(" PG ");
+    o.push_str(&a.parse_generics.as_ref().map(|ty| yname(ty)).unwrap_or_else(|| "-".to_string()));
+    o.push_str(" G ");
+    o.push_str(&a.programs.as_ref().map(|p| p.len().to_string()).unwrap_or_else(|| "-".to_string()));
+    o.push_str(" U ");
+    o.push_str(&ylist(a.expect_unused.iter().map(ysym).collect()));
+    o
+}
+
+fn yerr_kind<E: std::fmt::Debug>(er: &E) -> String {
+    let d = format!("{:?}", er);
+    let kind = d.split("kind: ").nth(1).unwrap_or("?");
+    kind.chars().take_while(|c| c.is_alphanumeric()).collect()
+}
+
+/// errors of `GrammarAST::complete_and_validate` (at most one, pushed after the parser's errors);
+/// the text parser returns none of these kinds
+const VALIDATION_KINDS: [&str; 6] = ["NoStartRule", "InvalidStartRule", "UnknownRuleRef", "UnknownToken", "NoPrecForToken", "UnknownEPP"];
+
+/// what `YaccParser::parse` returned (the errors of `ASTWithValidityInfo::new` without the validation
+/// error) and the AST it built
+fn yacc_fmt(ast: &ASTWithValidityInfo) -> String {
+    let perrs: Vec<String> = ast
+        .errors()
+        .iter()
+        .filter(|e| !VALIDATION_KINDS.contains(&yerr_kind(*e).as_str()))
+        .map(|e| format!("{} {}", yerr_kind(e), spans_str(e.spans())))
+        .collect();
+    if perrs.is_empty() {
+        format!("ok {}", yast_fmt(ast.ast()))
+    } else {
+        format!("err {} {}", ylist(perrs), yast_fmt(ast.ast()))
+    }
 }
 
 fn ns_fmt(n: &Namespaced<Span>, out: &mut String, spans: &mut Vec<Span>) {
@@ -243,6 +391,7 @@ fn run_entry(src: &str, e: Entry) -> EntryResult {
     let mut fails = Vec::new();
     let mut stats = Vec::new();
     let mut iline = None;
+    let mut yline = None;
     let outcome;
     match e {
         Entry::Header(req) => {
@@ -281,14 +430,16 @@ fn run_entry(src: &str, e: Entry) -> EntryResult {
             let r = guarded(std::panic::AssertUnwindSafe(|| {
                 let ast = ASTWithValidityInfo::new(KINDS[k], src);
                 let w = if ast.is_valid() { ast.ast().warnings() } else { Vec::new() };
-                (ast.errors().to_vec(), w)
+                (ast.errors().to_vec(), w, yacc_fmt(&ast))
             }));
             match r {
                 Err(m) => {
                     fails.push(format!("panic in {}: {}", entry_name(e), m));
                     outcome = "0".to_string();
+                    yline = Some(format!("{} panic", k));
                 }
-                Ok((errs, warns)) => {
+                Ok((errs, warns, yl)) => {
+                    yline = Some(format!("{} {}", k, yl));
                     if errs.is_empty() {
                         let mut spans = Vec::new();
                         for w in &warns {
@@ -406,7 +557,7 @@ fn run_entry(src: &str, e: Entry) -> EntryResult {
             };
         }
     }
-    EntryResult { outcome, iline, fails, stats }
+    EntryResult { outcome, iline, yline, fails, stats }
 }
 
 /// `format_error` takes its error by value; this lends it one that cannot be cloned
@@ -470,6 +621,9 @@ fn child_main() {
             if let Some(i) = r.iline {
                 writeln!(o, "I {}", i).unwrap();
             }
+            if let Some(y) = r.yline {
+                writeln!(o, "Y {}", y).unwrap();
+            }
             for f in r.fails {
                 writeln!(o, "H {}", f.replace('\n', " ")).unwrap();
             }
@@ -527,6 +681,7 @@ impl Worker {
 struct CaseResult {
     outcomes: Vec<String>,
     ilines: Vec<String>,
+    ylines: Vec<String>,
     fails: Vec<String>,
     stats: Vec<String>,
 }
@@ -548,7 +703,7 @@ fn attempt(w: &mut Worker, cat: usize, mask: u64, cps: &str, deadline: Duration)
     }
     let mut cur = 0usize;
     loop {
-        match w.rx.recv_timeout(deadline) {
+        match crate::gen::worker::recv_cpu_deadline(&w.rx, w.child.id(), deadline) {
             Ok(Some(l)) => {
                 if l == "." {
                     return Attempt::Done(res);
@@ -564,6 +719,7 @@ fn attempt(w: &mut Worker, cat: usize, mask: u64, cps: &str, deadline: Duration)
                         }
                     }
                     "I " => res.ilines.push(rest.to_string()),
+                    "Y " => res.ylines.push(rest.to_string()),
                     "H " => res.fails.push(rest.to_string()),
                     "S " => res.stats.push(rest.to_string()),
                     _ => {}
@@ -591,6 +747,18 @@ fn evaluate(w: &mut Worker, cat: usize, text: &str, confirmed: &AtomicUsize) -> 
     let mut mask = 0u64;
     let mut verdicts: Vec<String> = Vec::new();
     let mut masked_ilines: Vec<(usize, String)> = Vec::new();
+    let mut masked_ylines: Vec<String> = Vec::new();
+    // the `Iy` lines in the order of the yacc kinds, with a line for every masked entry point
+    let fix_y = |r: &mut CaseResult, masked: &Vec<String>| {
+        r.ylines.extend(masked.iter().cloned());
+        r.ylines.sort_by_key(|l| l.split(' ').next().and_then(|k| k.parse::<usize>().ok()).unwrap_or(99));
+    };
+    let ymask = |e: Entry, why: &str| -> Option<String> {
+        match e {
+            Entry::AstNew(kk) => Some(format!("{} {}", kk, why)),
+            _ => None,
+        }
+    };
     loop {
         match attempt(w, cat, mask, &cps, DEADLINE) {
             Attempt::Done(mut r) => {
@@ -598,6 +766,7 @@ fn evaluate(w: &mut Worker, cat: usize, text: &str, confirmed: &AtomicUsize) -> 
                 for (k, s) in masked_ilines {
                     r.ilines.insert(k.min(r.ilines.len()), s);
                 }
+                fix_y(&mut r, &masked_ylines);
                 r.fails.extend(verdicts);
                 return r;
             }
@@ -612,6 +781,7 @@ fn evaluate(w: &mut Worker, cat: usize, text: &str, confirmed: &AtomicUsize) -> 
                             for (k, s) in masked_ilines {
                                 r.ilines.insert(k.min(r.ilines.len()), s);
                             }
+                            fix_y(&mut r, &masked_ylines);
                             r.fails.extend(verdicts);
                             return r;
                         }
@@ -627,6 +797,7 @@ fn evaluate(w: &mut Worker, cat: usize, text: &str, confirmed: &AtomicUsize) -> 
                     if k < 2 {
                         masked_ilines.push((k, "hang".to_string()));
                     }
+                    masked_ylines.extend(ymask(ents[k], "hang"));
                     mask |= 1 << k;
                     // every hang costs a deadline: once 40 have been witnessed, a case that hangs is not
                     // probed further (its remaining entry points are reported as not run)
@@ -636,6 +807,7 @@ fn evaluate(w: &mut Worker, cat: usize, text: &str, confirmed: &AtomicUsize) -> 
                             if j < 2 {
                                 masked_ilines.push((j, "notrun".to_string()));
                             }
+                            masked_ylines.extend(ymask(ents[j], "notrun"));
                         }
                         verdicts.push("hang budget used up: the remaining entry points of this case were not run".to_string());
                     }
@@ -647,6 +819,7 @@ fn evaluate(w: &mut Worker, cat: usize, text: &str, confirmed: &AtomicUsize) -> 
                 if k < 2 {
                     masked_ilines.push((k, "abort".to_string()));
                 }
+                masked_ylines.extend(ymask(ents[k], "abort"));
                 mask |= 1 << k;
             }
         }
@@ -772,6 +945,34 @@ const ACTIONS: &[&str] = &[
 ];
 const CMTS: &[&str] = &["", "", "", " ", "\n", " /* c */ ", " // c\n", "/* multi\n line \u{e9} */", "\t"];
 
+/// texts aimed at single branches of `parse_declarations` / `parse_rule` and their loop conditions
+const YACC_EDGES: &[&str] = &[
+    "", "%", "%%", "%%%%", "%% %%", "%%\n%%\nprog \u{e9}", "/", "/*", "/**/", "//", "// x\n%%", "/* \n/ */%%",
+    "%avoid_insert", "%avoid_insert ", "%avoid_insert 'a'", "%avoid_insert 'a' ", "%avoid_insert 'a' 'a'\n%%", "%avoid_insert 'a' // c\n'b'\n%%",
+    "%avoid_insert 'a'\n%avoid_insert 'a' \"b\"\n%%\nA: ;", "%avoid_insert\n%%", "%avoid_insert /* x\n */ 'a'\n%%",
+    "%implicit_tokens", "%implicit_tokens a b a", "%implicit_tokens a b a\n%%\nA: a;", "%implicit_tokens a\n%implicit_tokens b a\n%%A:;",
+    "%left", "%left ", "%left '+' ", "%left '+' '+'\n%right '+'\n%nonassoc \"+\" '-'\n%%", "%left\n'+'\n%%", "%leftx\n%%", "%nonassoc a /* \n */ b\n%%",
+    "%token", "%token a%%", "%token a %b", "%token a\n b 'c' \"d\" %%\nA: a b c d e;", "%token \"\"\" ''' '\n'", "%token 'a\nb'", "%token \"a\rb\"%%", "%tokenx y\n%%",
+    "%token a a\n%token a\n%%\nA: a 'a' \"a\";", "%token .a. _ a.b\n%%\n.a.: _ a.b;",
+    "%start", "%start ", "%start\nA", "%start A\n%start B\n%start A %%", "%start 1", "%start \u{e9}", "%start A.b_c9 x",
+    "%epp", "%epp a", "%epp a ", "%epp a 'x", "%epp a 'x'", "%epp a \"x\\\"y\\'z\"\n%%", "%epp a 'x\\qy'", "%epp a 'x\\", "%epp a 'x\ny'", "%epp a x",
+    "%epp 'a' \"1\"\n%epp a \"2\"\n%epp \"a\" '3'\n%%\nS: a;", "%epp a\n'x'", "%epp \u{e9} 'x'", "%epp a '\u{e9}\\'\u{1F600}'%%",
+    "%expect", "%expect ", "%expect x", "%expect 1", "%expect 1 2\n%%", "%expect 18446744073709551615\n%expect 18446744073709551616\n%%",
+    "%expect 1\n%expect 2\n%expect-rr 1\n%expect-rr 007\n%expect 3\n%%", "%expect-rr", "%expect-rr\n1", "%expect-r 1", "%expect-unused", "%expect-unused A 'b' \"c\" d.e %%",
+    "%expect-unused 1", "%expect-unused A\nB\n%token x\n%%", "%expect-unused \u{e9}", "%expect-unused ''", "%expect-unusedA\n%%",
+    "%parse-param", "%parse-param a", "%parse-param a:", "%parse-param a: T", "%parse-param a::b : T\n%%", "%parse-param a::b", "%parse-param a\n: T\n%%", "%parse-param a:\nT",
+    "%parse-param a :: b :: c: &'a ::std::vec::Vec<u8>\n%%\nA:;", "%parse-param :", "%parse-param ::", "%parse-param :::", "%parse-param \u{e9}::\u{e9}:\u{e9}\r\n%%",
+    "%parse-generics", "%parse-generics T", "%parse-generics\n", "%parse-generics 'a, \u{e9}\r%%", "%actiontype", "%actiontype T", "%actiontype T\n%actiontype U\n%actiontype V\n%%",
+    "%actiontype\nT", "%foo", "%\u{e9}", "x", "%token a\nx",
+    "%%A", "%%A:", "%%A:;", "%%A:|;", "%%A: |\n| ;B:;", "%%A;", "%%A B;", "%%A -> T: ;", "%%A->T:;", "%%A ->", "%%A -> T", "%%A -> T::U: 'a';", "%%A -> T::U", "%%A -> :: : ;",
+    "%%A -> T\n: 'a' ;", "%%A - > T: ;", "%%\u{e9}: ;", "%%1: ;", "%%A: 'a", "%%A: 'a' \"b\" c %prec 'd' { e } ;", "%%A: %prec", "%%A: %prec ;", "%%A: %prec\n'a'\n;",
+    "%%A: %prec 'a' 'b';", "%%A: %precx;", "%%A: %empty;", "%%A: %empty | %empty { } | %empty %prec 'a';", "%%A: 'a' %empty;", "%%A: %empty 'a';", "%%A: %empty", "%%A: %emptyx;",
+    "%%A: %empty %empty;", "%%A: { }", "%%A: { } ;", "%%A: { } 'a';", "%%A: {", "%%A: {{}", "%%A: {}};", "%%A: }", "%%A: { \n\r\n } | { '}' } ;", "%%A: {\u{e9}} ;",
+    "%%A: 'a' { x } /* c */ | // d\n 'b' ;", "%%A: \"\"\";", "%%A: ''';", "%%A: '';", "%%A: \"a\nb\";", "%%A: 'a\\'b' ;", "%%A: a.b _c D9 ;", "%%A: 9 ;", "%%A: \u{e9} ;",
+    "%%A: 'a' ; B: 'b' ; A: 'c' ;%%", "%%A: B ;\n%%\n", "%%A: B ;\n%% \u{e9}", "%%A:B;%%%%", "%token a\n%%\nA: a b 'a' ;", "%start B\n%%\nA: ; B: ;",
+    "%%A /* c */ : /* d */ 'a' /* e */ ; // f", "%%A /* c", "%%A: 'a' /* c", "%%A: 'a' /", "%%A: 'a' /x;", "%%A: 'a' //", "%%\nA:\n  'a'\n  | B\n  ;\nB: ;\n",
+];
+
 fn gen_yacc(r: &mut Rng) -> String {
     let mut o = String::new();
     let grmtools = r.chance(2, 3);
@@ -779,7 +980,14 @@ fn gen_yacc(r: &mut Rng) -> String {
     let nr = r.range(1, 4);
     let rules: Vec<&str> = (0..nr).map(|i| RULES[(i + r.below(2)) % RULES.len()]).collect();
     for _ in 0..r.below(6) {
-        match r.below(12) {
+        match r.below(16) {
+            12 => o.push_str(&format!("%implicit_tokens {} {}\n", r.pick(TOKS), r.pick(TOKS))),
+            13 => o.push_str(&format!("%parse-generics 'a, T: {}\n", r.pick(&["Copy", "'a + Fn(u8) -> u8", "\u{e9}"]))),
+            14 => {
+                let t = *r.pick(TOKS);
+                o.push_str(&format!("%epp {} 'x'\n%epp {} \"y\\'\"\n", t, if r.chance(2, 3) { t } else { *r.pick(TOKS) }));
+            }
+            15 => o.push_str(&format!("%avoid_insert {} {}{}", r.pick(TOKS), r.pick(TOKS), r.pick(&["\n", " \n", "", " "]))),
             0 => o.push_str(&format!("%start {}\n", rules[0])),
             1 => o.push_str(&format!("%token {} {}\n", r.pick(TOKS), r.pick(TOKS))),
             2 => o.push_str(&format!("%left {}\n", r.pick(TOKS))),
@@ -845,6 +1053,16 @@ const REGEXES: &[&str] = &[
 ];
 const LNAMES: &[&str] = &["\"INT\"", "'ID'", "\"+\"", "'*'", ";", "\"\u{e9}\"", "\"(\"", "'a b'", "\"\\\"\"", ";"];
 const STATES: &[&str] = &["STR", "COMMENT", "s1", "X_y"];
+
+const LEX_EDGES: &[&str] = &[
+    "", "%", "%%", "%%\n", "%%\n%%", "//", "// x", "/* x", "%x", "%x ", "%x STR", "%x STR\n", "%s A B", "%option x\n%%",
+    "%grmtools{allow_wholeline_comments}", "%grmtools{allow_wholeline_comments}\n", "%grmtools{allow_wholeline_comments}\n//",
+    "%grmtools{allow_wholeline_comments}\n// todo", "%grmtools{allow_wholeline_comments}\n// todo\n", "%grmtools{allow_wholeline_comments}\n\n// a somewhat longer comment at the end of the text",
+    "%grmtools{allow_wholeline_comments}\n%x STR\n// todo", "%grmtools{allow_wholeline_comments}\n//\u{e9}\u{e9}\u{e9}\u{e9}\u{e9}\u{e9}\u{e9}\u{e9}\u{e9}\u{e9}\u{e9}\u{e9}\u{e9}\u{e9}\u{e9}\u{e9}\u{e9}\u{e9}a",
+    "%grmtools{allow_wholeline_comments}\n%%\n// c", "%grmtools{allow_wholeline_comments}\n%%\na 'A'\n// c", "%grmtools{allow_wholeline_comments}\n%%\n// c\na 'A'", "%grmtools{allow_wholeline_comments}\n%%\na 'A' // c",
+    "%x STR\n// todo", "%%\n// c", "%%\na 'A'\n//", "%%\na", "%%\na ", "%%\na 'A", "%%\na \"A", "%%\na ;", "%%\n<", "%%\n<STR", "%%\n<STR>", "%%\n<STR>a", "%%\n<STR>a <", "%%\n<STR>a <+", "%%\n<STR>a <+STR", "%%\n<STR>a <+STR>",
+    "%x STR\n%%\n<STR>a <-STR>'A'", "%x STR\n%%\n<STR,INITIAL>\u{e9} ;", "%%\n\u{e9}", "%%\n\\", "%%\na\\ 'A'", "%%\n\\\u{e9} 'A'", "%%\n\u{b}", "%%\na 'A'\u{b}b 'B'\n", "%%\r\na 'A'\r\n", "%%\n\n\n",
+];
 
 fn gen_lex(r: &mut Rng) -> String {
     let mut o = String::new();
@@ -1029,6 +1247,10 @@ fn emit(out: &mut Out, c: &Case, r: &CaseResult) {
     for i in &r.ilines {
         out.imp(id, "I", i);
     }
+    for y in &r.ylines {
+        out.imp(id, "Iy", y);
+        out.count(&format!("yacc.model_tie.{}", y.split(' ').nth(1).unwrap_or("?")));
+    }
     if r.fails.is_empty() {
         out.imp(id, "H", "ok");
     } else {
@@ -1095,10 +1317,34 @@ pub fn run(a: &Args) {
         cases.push(Case { cat: CAT_YACC, text: format!("%%\nS: {};", "'a' ".repeat(3000)), kind: "long_production" });
         cases.push(Case { cat: CAT_YACC, text: format!("%%\nS: 'a' {{ {} }};", "{".repeat(3000)), kind: "deep_action" });
         cases.push(Case { cat: CAT_YACC, text: format!("%%\nS: 'a' {};", "/* x ".repeat(2000)), kind: "long_comment" });
+        // hand-written edge texts for the yacc text parser (each also gets its mutation stream below)
+        for t in YACC_EDGES {
+            cases.push(Case { cat: CAT_YACC, text: t.to_string(), kind: "yacc_edge" });
+        }
+        // hand-written edge texts for the lex text parser: every place where the text can END (in a
+        // comment, a declaration, a header, a rule, a state list) with and without whole-line comments,
+        // with multi-byte characters next to the end; each also gets its mutation stream
+        for t in LEX_EDGES {
+            cases.push(Case { cat: CAT_LEX, text: t.to_string(), kind: "lex_edge" });
+        }
         cases.push(Case { cat: CAT_LEX, text: format!("%%\n{} 'A'\n", "(".repeat(3000)), kind: "deep_regex" });
         cases.push(Case { cat: CAT_LEX, text: format!("%%\n{}", "a 'A'\n".repeat(1500)), kind: "many_rules" });
         let mut rng = Rng::for_case(a.seed, 12, 0);
         let budget = if a.thorough { 400 } else { 60 };
+        for t in YACC_EDGES {
+            let mut ms = Vec::new();
+            mutants(&mut rng, t, &seeds, 12, &mut ms);
+            for (m, k) in ms {
+                cases.push(Case { cat: CAT_YACC, text: m, kind: k });
+            }
+        }
+        for t in LEX_EDGES {
+            let mut ms = Vec::new();
+            mutants(&mut rng, t, &seeds, 12, &mut ms);
+            for (m, k) in ms {
+                cases.push(Case { cat: CAT_LEX, text: m, kind: k });
+            }
+        }
         for (_, cat, t) in &corp {
             let mut ms = Vec::new();
             mutants(&mut rng, t, &seeds, budget, &mut ms);
